@@ -221,11 +221,27 @@ func genC17(t *rapid.T) c17Case {
 		return c17Case{Kind: "codons", Arg: sb.String()}
 	}
 	n := rapid.IntRange(0, 40).Draw(t, "len")
+	if rapid.IntRange(0, 5).Draw(t, "longString") == 0 {
+		n = rapid.IntRange(41, 300).Draw(t, "longLen")
+	}
 	b := make([]byte, n)
 	for i := range b {
 		b[i] = accepted32[rapid.IntRange(0, len(accepted32)-1).Draw(t, "ch")]
 	}
-	return c17Case{Kind: "string", Arg: string(b)}
+	s := string(b)
+	// padded alignments: long runs of missing-data symbols (mixed -, N, n, ?) at either end or inside
+	run := func(label string) string {
+		k := rapid.SampledFrom([]int{0, 0, 3, 15, 16, 17, 33, 64}).Draw(t, label+"Len")
+		r := make([]byte, k)
+		for i := range r {
+			r[i] = "--NNn?"[rapid.IntRange(0, 5).Draw(t, label+"Sym")]
+		}
+		return string(r)
+	}
+	if rapid.IntRange(0, 2).Draw(t, "padded") == 0 {
+		s = run("lead") + s + run("mid") + s[len(s)/2:] + run("trail")
+	}
+	return c17Case{Kind: "string", Arg: s}
 }
 
 func TestC17(t *testing.T) {
